@@ -19,7 +19,7 @@ RULE = ('molecules of 1..12 fragments on a random reference: random overlaps bet
 ASSUMPTIONS = ['fragments are forced into one molecule through the internal add so the equality rules do not filter the input',
                'each fragment with a read 1 contributes one call per position: the higher-quality mate; equal quality with different bases, or N: no vote']
 MIN_NONTRIVIAL = {'quick': 300, 'thorough': 30000}
-REQUIRED_MONITORS = ['ret:get_consensus', 'ret:get_consensus_dove_safe', 'oracle:positions_compared', 'oracle:tied_positions', 'meta:permutations', 'meta:duplications']
+REQUIRED_MONITORS = ['ret:get_consensus', 'ret:get_consensus_dove_safe', 'oracle:positions_compared', 'oracle:tied_positions', 'meta:permutations', 'meta:duplications', 'history:repeated_requests', 'history:grown_molecule']
 SHARD_TIMEOUT = {'quick': 900, 'thorough': 5400}
 REF_LEN = 400
 
@@ -230,6 +230,47 @@ def run_case(case):
             acc.violate('consensus-changes-when-every-fragment-is-duplicated', f'duplicating every fragment changes the consensus (dove_safe={dove})', wit)
         if ties or disagree:
             acc.sigs.add(f"{case['i']}/{dove}")
+    # ---- histories on the same objects: alternate the two kinds of request on one molecule, share the Fragment objects between two
+    # molecules (other order / every fragment twice), and ask again after the molecule has grown
+    exps = {dove: oracle(frags, dove)[0] for dove in (False, True)}
+    objs = [Fragment([make_seg(header, rec) if rec is not None else None for rec in f['recs']], umi_hamming_distance=0) for f in frags]
+    first = r.random() < 0.5
+    m1 = Molecule()
+    for fr in objs:
+        m1._add_fragment(fr)
+    order2 = r.sample(range(n), n)
+    m2 = Molecule()
+    for idx in order2 + (order2 if r.random() < 0.5 else []):
+        m2._add_fragment(objs[idx])
+    for step, (mol, dove) in enumerate([(m1, first), (m1, not first), (m1, first), (m2, not first), (m2, first)]):
+        try:
+            g = observe(mol, dove)
+        except Exception as ex:
+            acc.violate('get_consensus-raised:' + type(ex).__name__, f'history step {step}: get_consensus(dove_safe={dove}) raised {ex!r}', wit)
+            break
+        acc.count('history:repeated_requests')
+        if g != exps[dove]:
+            extra = sorted(set(g) - set(exps[dove]))
+            missing = sorted(set(exps[dove]) - set(g))
+            acc.violate('consensus-depends-on-earlier-requests', f'step {step} of the history [first request dove_safe={first}, then alternating, then a second molecule '
+                                                                 f'sharing the fragments]: get_consensus(dove_safe={dove}) has {len(extra)} unexpected positions {extra[:6]}, '
+                                                                 f'{len(missing)} missing {missing[:6]}', dict(wit, first_request_dove_safe=first, step=step))
+            break
+    if n >= 2:
+        cut = r.randint(1, n - 1)
+        m3 = Molecule()
+        for idx in range(cut):
+            m3._add_fragment(Fragment([make_seg(header, rec) if rec is not None else None for rec in frags[idx]['recs']], umi_hamming_distance=0))
+        dove = r.random() < 0.5
+        before = observe(m3, dove)
+        exp_before = oracle(frags[:cut], dove)[0]
+        for idx in range(cut, n):
+            m3._add_fragment(Fragment([make_seg(header, rec) if rec is not None else None for rec in frags[idx]['recs']], umi_hamming_distance=0))
+        after = observe(m3, dove)
+        acc.count('history:grown_molecule')
+        if before != exp_before or after != exps[dove]:
+            acc.violate('consensus-stale-after-growth', f'molecule asked after {cut} fragments and again after {n}: first answer correct={before == exp_before}, '
+                                                        f'second answer correct={after == exps[dove]} (dove_safe={dove})', dict(wit, cut=cut, dove_safe=dove))
     acc.sample = {'fragments': n, 'kinds': [f['kind'] for f in frags], 'hot_positions': hot,
                   'first_fragment': [(x['flag'], x['pos'], x['seq']) if x else None for x in frags[0]['recs']]}
     return acc
